@@ -79,6 +79,12 @@ impl Heap {
     }
 }
 
+#[cfg(kondziu_fml_verif)]
+impl Heap {
+    /// Verification hook (compiled only under `--cfg kondziu_fml_verif`): the cumulative allocated size.
+    pub fn verif_size(&self) -> usize { self.size }
+}
+
 impl From<Vec<HeapObject>> for Heap {
     fn from(objects: Vec<HeapObject>) -> Self {
         Heap {
